@@ -182,6 +182,26 @@ def check_slots(drv, images, layout, base, inputs, roles_expected, problems):
             problems.append(f"{dom}: data outside the slots of this domain's envelopes ({len(extra)} bytes)")
 
 
+# the storage layout the devices' firmware is built against (role: offset, slot size, domain), pinned here like the registry of C08: the tables of the
+# tool are extracted on every run and must be these
+PINNED_LAYOUT = {
+    "nrf54h20": [("SEC_TOP", 768, 1280, "SECURE"), ("SEC_SDFW", 2048, 1024, "SECURE"), ("SEC_SYSCTRL", 3072, 1024, "SECURE"), ("RAD_RECOVERY", 5120, 1024, "RADIO"),
+                 ("RAD_LOCAL_1", 6144, 1024, "RADIO"), ("RAD_LOCAL_2", 7168, 1024, "RADIO"), ("APP_ROOT", 9216, 2048, "APPLICATION"), ("APP_RECOVERY", 11264, 2048, "APPLICATION"),
+                 ("APP_LOCAL_1", 13312, 1024, "APPLICATION"), ("APP_LOCAL_2", 14336, 1024, "APPLICATION"), ("APP_LOCAL_3", 15360, 1024, "APPLICATION")],
+    "nrf9280": [("SEC_TOP", 4096, 1536, "SECURE"), ("SEC_SDFW", 2048, 1024, "SECURE"), ("SEC_SYSCTRL", 3072, 1024, "SECURE"), ("RAD_RECOVERY", 9216, 1024, "RADIO"),
+                ("RAD_LOCAL_1", 10240, 1024, "RADIO"), ("RAD_LOCAL_2", 11264, 1024, "RADIO"), ("APP_ROOT", 13312, 2048, "APPLICATION"), ("APP_RECOVERY", 15360, 2048, "APPLICATION"),
+                ("APP_LOCAL_1", 17408, 1024, "APPLICATION"), ("APP_LOCAL_2", 18432, 1024, "APPLICATION"), ("APP_LOCAL_3", 19456, 1024, "APPLICATION")],
+}
+
+
+def pinned(layout, soc):
+    """the layout with the pinned slots; (layout', roles whose extracted slot differs from the pinned one)"""
+    want = [{"role": r, "offset": o, "size": z, "domain": dm} for r, o, z, dm in PINNED_LAYOUT[soc]]
+    have = {s_["role"]: s_ for s_ in layout["slots"]}
+    changed = [w["role"] for w in want if have.get(w["role"]) != w] + [r for r in have if r not in {w["role"] for w in want}]
+    return {**layout, "slots": want}, changed
+
+
 def fit_envelope(drv, vendor, cls, soc, kconfig, role, size, delta, index):
     """a plain envelope of the given class whose slot structure (the CBOR map stored in the slot) is exactly `size + delta` bytes long; the length
     is read off the model's image (the structure is the first CBOR item of the slot, the rest is padding)"""
@@ -219,11 +239,15 @@ def work(args):
     drv = common.worker_driver()
     soc = rng.choice(["nrf54h20", "nrf9280"])
     layout = drv.call({"op": "storage.layout", "soc": soc})["ok"]
+    layout, changed_roles = pinned(layout, soc)
     defaults = {role: (v, c) for v, c, role in layout["assignments"]}
     base = rng.choice([0x0E1ED000, 0, 0xF000, 0x10000 - 1024, 0x00FF0000, 0xFFFF0000 - 65536, rng.randrange(0, 2 ** 31) & ~0xF])
     roles = [s["role"] for s in layout["slots"]]
     k = rng.randint(1, len(roles)) if rng.random() < 0.4 else rng.randint(1, 4)
     chosen = rng.sample(roles, k)
+    if changed_roles:
+        # the tool's table differs from the pinned layout at these roles: they are what this case is about
+        chosen = [r for r in changed_roles if r in roles][:2] + [r for r in chosen if r not in changed_roles]
     kconfig_lines = []
     names = {}
     use_kconfig = rng.random() < 0.5
@@ -524,6 +548,14 @@ def run(tier: str, seed: int) -> int:
         if len(res.samples) < 4 and job[1] % 29 == 0:
             res.sample({"job": list(job), "soc": o["soc"], "envelopes": o["n"], "kconfig": o["kconfig"], "outcome": o["impl"]})
     cli_cases(res, tier, seed)
+    drv0 = common.Driver()
+    for soc in PINNED_LAYOUT:
+        _, changed = pinned(drv0.call({"op": "storage.layout", "soc": soc})["ok"], soc)
+        res.case(["pinned-layout", soc])
+        if changed:
+            res.mismatches.append({"op": "storage.layout", "soc": soc, "roles": changed, "impl": "(extracted slot table)", "model": "(pinned layout)",
+                                   "what": "the slot table of the tool differs from the pinned storage layout at these roles"})
+    drv0.close()
     return finish(res, st, RULE, NOTE)
 
 
